@@ -459,6 +459,39 @@ class Fault:
         return f"Fault({self.when},{self.kind})"
 
 
+class _FsyncFault:
+    """While active, the n-th os.fsync call fails with EIO (baton scheduling: only one actor thread runs).
+    `fired` tells whether the failing call was on a regular file ("file") or on a directory ("dir")."""
+
+    def __init__(self, n: int) -> None:
+        self.n = n
+        self.count = 0
+        self.fired: Optional[str] = None
+
+    def __enter__(self) -> "_FsyncFault":
+        import errno
+        import stat as _stat
+
+        self._orig = os.fsync
+
+        def fsync(fd: Any) -> None:
+            self.count += 1
+            if self.count == self.n:
+                try:
+                    isdir = _stat.S_ISDIR(os.fstat(fd if isinstance(fd, int) else fd.fileno()).st_mode)
+                except Exception:  # noqa: BLE001
+                    isdir = False
+                self.fired = "dir" if isdir else "file"
+                raise OSError(errno.EIO, "injected fsync failure")
+            return self._orig(fd)
+
+        os.fsync = fsync
+        return self
+
+    def __exit__(self, *exc: Any) -> None:
+        os.fsync = self._orig
+
+
 def _async_here(env: Env, directive: Any, where: str) -> None:
     """Deliver an asynchronous BaseException at a non-storage scheduling point."""
     if isinstance(directive, Fault) and directive.when == "async":
@@ -498,11 +531,45 @@ def _storage_wrapper(env: Env, op: str, orig: Callable[..., Any]) -> Callable[..
             raise directive.make(what)
         res: Any = None
         err: Optional[BaseException] = None
+        ff: Optional[_FsyncFault] = None
+        if isinstance(directive, Fault) and directive.when == "sys" and env.backend == "local" and op in ("write_file", "write_file_cas"):
+            ff = _FsyncFault(int(str(directive.kind)[-1]))
         try:
             with _Nest():
-                res = orig(self, path, *args, **kw)
+                if ff is not None:
+                    with ff:
+                        res = orig(self, path, *args, **kw)
+                else:
+                    res = orig(self, path, *args, **kw)
         except BaseException as e:  # noqa: BLE001
             err = e
+        if ff is not None and ff.fired is not None:
+            # an fsync inside the atomic write failed.  Contract (storage_backend.py: atomic_write_failures): an exception
+            # means the file was not replaced; a failed flush of the FILE must surface; only the directory flush is best effort
+            try:
+                with _Nest():
+                    landed = bool(args) and self.exists(path) and self.read_file(path) == args[0]
+            except Exception:  # noqa: BLE001
+                landed = False
+            if err is not None and not landed:
+                s.emit({"k": "Fault", "op": op, "cls": cls, "when": "before", "kind": "fsync-" + ff.fired, "path": path.strip("/"),
+                        "f": env.marker_fid(path) if cls == "marker" else (env.ids.fid(path) if cls in ("data", "man", "list") else 0)})
+                if rctx is not None and rctx.get("slot") is not None and rctx["slot"] in s.trace:
+                    s.trace.remove(rctx["slot"])
+                    rctx["slot"] = None
+                rctx and rctx.__setitem__("faulted", True)
+                raise err
+            if err is not None and landed:
+                # the write took effect AND raised: on the local backend nothing may do that
+                _set_vmtime(env, self, path)
+                _emit_storage_event(env, a, op, cls, path, args, res, None, rctx)
+                s.emit({"k": "Fault", "op": op, "cls": cls, "when": "after", "kind": "fsync-" + ff.fired, "f": 0})
+                raise err
+            if err is None and ff.fired == "file":
+                _set_vmtime(env, self, path)
+                _emit_storage_event(env, a, op, cls, path, args, res, None, rctx)
+                s.emit({"k": "SysFaultSwallowed", "op": op, "cls": cls, "target": "file"})
+                return res
         if err is None and op == "list_files" and isinstance(directive, Fault) and directive.when == "escape":
             res = list(res)
             res.insert(min(len(res), 1), "../outside/x.parquet")      # a listing that escapes the table root
@@ -791,12 +858,27 @@ def install(env: Env) -> None:
         if isinstance(directive, Fault) and directive.when in ("before", "async"):
             env.sched.emit({"k": "Fault", "op": "write_data", "cls": "data", "when": directive.when, "kind": directive.kind, "f": f})
             raise directive.make(f"write_data({file_path})")
+        ff: Optional[_FsyncFault] = None
+        if isinstance(directive, Fault) and directive.when == "sys" and env.backend == "local":
+            ff = _FsyncFault(int(str(directive.kind)[-1]))
         try:
             with _Nest():
-                res = orig_wdf(self, file_path, *args, **kw)
+                if ff is not None:
+                    with ff:
+                        res = orig_wdf(self, file_path, *args, **kw)
+                else:
+                    res = orig_wdf(self, file_path, *args, **kw)
         except BaseException as e:  # noqa: BLE001
+            if ff is not None and ff.fired is not None and not os.path.exists(self.storage._resolve_path(file_path)):
+                env.sched.emit({"k": "Fault", "op": "write_data", "cls": "data", "when": "before", "kind": "fsync-" + ff.fired, "f": f})
+                raise
             env.sched.emit({"k": "WriteData", "f": f, "ok": False, "err": type(e).__name__})
             raise
+        if ff is not None and ff.fired == "file":
+            # the flush of the data file failed and the writer went on: the file is published unflushed
+            env.sched.emit({"k": "WriteData", "f": f, "ok": True, "mt": env.clock.rel(env.clock.peek_ms())})
+            env.sched.emit({"k": "SysFaultSwallowed", "op": "write_data", "cls": "data", "target": "file"})
+            return res
         if env.backend == "local":
             try:
                 vt = env.clock.peek_ms() / 1000.0
